@@ -5,6 +5,7 @@
 (*  1 add (n->1)  2 mul (n->1)  3 neg (1->1)  4 copy (1->2)  5 discard (1->0)*)
 (*  6 one (0->1)  7 zero (0->1) 8 and (n->1)  9 xor (n->1) 10 not (1->1)     *)
 (* 11 copy3 (1->3) 12 swap (2->2) 13 addmul (2->2)                           *)
+(* 14 sub 15 div 16 or 17 shl 18 shr (2->1, operators of the Var interface)  *)
 (***************************************************************************)
 EXTENDS Layering, Bitwise
 M == 256
@@ -16,6 +17,10 @@ AndAll(s) == IF s = <<>> THEN 255 ELSE Head(s) & AndAll(Tail(s))
 RECURSIVE XorAll(_)
 XorAll(s) == IF s = <<>> THEN 0 ELSE Head(s) ^^ XorAll(Tail(s))
 First(s) == IF s = <<>> THEN 0 ELSE s[1]
+Arg(args, i) == IF Len(args) >= i THEN args[i] ELSE 0
+RECURSIVE Pow2(_)
+Pow2(k) == IF k = 0 THEN 1 ELSE 2 * Pow2(k - 1)
+SigLabels == 1 .. 18
 Apply(l, args) ==
   CASE l = 1 -> <<SumM(args)>>
     [] l = 2 -> <<ProdM(args)>>
@@ -30,8 +35,14 @@ Apply(l, args) ==
     [] l = 11 -> <<First(args), First(args), First(args)>>
     [] l = 12 -> <<IF Len(args) >= 2 THEN args[2] ELSE 0, First(args)>>
     [] l = 13 -> <<SumM(args), ProdM(args)>>
-Arity(l) == CASE l \in {1, 2, 8, 9, 12, 13} -> 2 [] l \in {3, 4, 5, 10, 11} -> 1 [] l \in {6, 7} -> 0
-Coarity(l) == CASE l \in {1, 2, 3, 6, 7, 8, 9, 10} -> 1 [] l \in {4, 12, 13} -> 2 [] l = 5 -> 0 [] l = 11 -> 3
+    \* the remaining binary operators of the Var interface (operand order matters for some of them)
+    [] l = 14 -> <<(Arg(args, 1) - Arg(args, 2) + M) % M>>                                   \* sub
+    [] l = 15 -> <<IF Arg(args, 2) = 0 THEN 0 ELSE Arg(args, 1) \div Arg(args, 2)>>           \* div (0 when dividing by 0)
+    [] l = 16 -> <<Arg(args, 1) | Arg(args, 2)>>                                              \* or
+    [] l = 17 -> <<(Arg(args, 1) * Pow2(Arg(args, 2) % 8)) % M>>                              \* shl
+    [] l = 18 -> <<Arg(args, 1) \div Pow2(Arg(args, 2) % 8)>>                                 \* shr
+Arity(l) == CASE l \in {1, 2, 8, 9, 12, 13, 14, 15, 16, 17, 18} -> 2 [] l \in {3, 4, 5, 10, 11} -> 1 [] l \in {6, 7} -> 0
+Coarity(l) == CASE l \in {1, 2, 3, 6, 7, 8, 9, 10, 14, 15, 16, 17, 18} -> 1 [] l \in {4, 12, 13} -> 2 [] l = 5 -> 0 [] l = 11 -> 3
 
 DepAcyclic(f) == OnCycle(Dep(f)) = {}
 \* every node written at most once: by one hyperedge target position or by one input position
@@ -54,5 +65,5 @@ EvalRef(f, x) == [i \in 1 .. Len(f.t) |-> Val(f, x, f.t[i])]
 EdgeCalls(f, x) == [k \in 1 .. NE(f) |-> [l |-> f.e[k].l, args |-> [j \in 1 .. Len(f.e[k].s) |-> Val(f, x, f.e[k].s[j])]]]
 EvalVarRef(f, x) == [i \in 1 .. Len(f.t) |-> ValG(f, x, f.t[i], "var")]
 \* diagrams over the signature: arities respected
-Typed(f) == \A k \in 1 .. NE(f) : f.e[k].l \in 1 .. 13 /\ Len(f.e[k].s) = Arity(f.e[k].l) /\ Len(f.e[k].t) = Coarity(f.e[k].l)
+Typed(f) == \A k \in 1 .. NE(f) : f.e[k].l \in SigLabels /\ Len(f.e[k].s) = Arity(f.e[k].l) /\ Len(f.e[k].t) = Coarity(f.e[k].l)
 =============================================================================
